@@ -156,3 +156,212 @@ Proof.
        | |- triple_eq (hsv_to_rgb_Q _ ((?mx - ?mn) / ?mx) ?mx) _ => leaf r g b mx mn
        end.
 Qed.
+
+(* ---------------------------------------------------------------- hsv -> rgb -> hsv *)
+
+(* rgb_to_hsv on a colour given in sector form: v the largest component, v - P the smallest,
+   F the offset of the third (0 <= F < P).  The hue comes out scaled by P. *)
+Ltac hue_leaf mx mn P X Y :=
+  let Hd := fresh "Hd" in let HX := fresh "HX" in let X0 := fresh "X0" in let X1 := fresh "X1" in
+  let Hh := fresh "Hh" in let Yneg := fresh "Yneg" in let Ypos := fresh "Ypos" in
+  let D := fresh "D" in let M := fresh "M" in
+  assert (Hd : 0 < mx - mn) by lra;
+  assert (D : mx - mn == P) by lra;
+  assert (HX : X * (mx - mn) == Y) by (field; lra);
+  destruct (Qlt_le_dec Y 0) as [Yneg | Ypos];
+  [ assert (X0 : -(6) <= X) by (apply (Qmult_le_r _ _ (mx - mn) Hd); lra);
+    assert (X1 : X < 0) by (apply (Qmult_lt_r _ _ (mx - mn) Hd); lra);
+    assert (Hh : py_fmod_Q (X / (6 # 1)) (1 # 1) == X / 6 + 1)
+      by (apply fmod1_neg; [apply Qle_shift_div_l; lra | apply Qlt_shift_div_r; lra]);
+    rewrite Hh;
+    assert (M : (X / 6 + 1) * 6 * P == X * (mx - mn) + 6 * P) by (rewrite D; field; lra);
+    rewrite M, HX; lra
+  | assert (X0 : 0 <= X) by (apply (Qmult_le_r _ _ (mx - mn) Hd); lra);
+    assert (X1 : X < 6) by (apply (Qmult_lt_r _ _ (mx - mn) Hd); lra);
+    assert (Hh : py_fmod_Q (X / (6 # 1)) (1 # 1) == X / 6)
+      by (apply fmod1_nonneg; [apply Qle_shift_div_l; lra | apply Qlt_shift_div_r; lra]);
+    rewrite Hh;
+    assert (M : (X / 6) * 6 * P == X * (mx - mn)) by (rewrite D; field; lra);
+    rewrite M, HX; lra ].
+
+Lemma rgb_to_hsv_Q_of_sector : forall r g b v P F n,
+  0 < P -> P <= v -> 0 <= F -> F < P -> (0 <= n <= 5)%Z ->
+  triple_eq (r, g, b) (sector n v (v - P) (v - F) (v - P + F)) ->
+  let '(h', s', v') := rgb_to_hsv_Q r g b in
+  h' * 6 * P == inject_Z n * P + F /\ s' == P / v /\ v' == v.
+Proof.
+  intros r g b v P F n HP HPv HF0 HF1 Hn T.
+  assert (C : (n = 0 \/ n = 1 \/ n = 2 \/ n = 3 \/ n = 4 \/ n = 5)%Z) by lia.
+  destruct C as [-> | [-> | [-> | [-> | [-> | ->]]]]];
+    destruct T as [T1 [T2 T3]]; unfold sector in *; simpl fst in *; simpl snd in *;
+    unfold inject_Z;
+    unfold rgb_to_hsv_Q, py_max_Q, py_min_Q;
+    repeat qcase_inner; cbv zeta; repeat qcase_inner;
+    try lra;
+    (split; [| split; [| lra]]);
+    try match goal with
+    | |- (?mx - ?mn) / ?mx == _ =>
+        let A := fresh in let B := fresh in
+        assert (A : mx - mn == P) by lra; assert (B : mx == v) by lra; rewrite A, B; reflexivity
+    end;
+    match goal with
+    | |- py_fmod_Q (?X / _) _ * _ * _ == _ =>
+        match X with
+        | context [(?mx - _) / (?mx - ?mn)] =>
+            first [ hue_leaf mx mn P X (g - b)
+                  | hue_leaf mx mn P X (2 * (mx - mn) + b - r)
+                  | hue_leaf mx mn P X (4 * (mx - mn) + r - g) ]
+        end
+    end.
+Qed.
+
+Lemma hsv_to_rgb_Q_grey : forall h s v, s == 0 -> hsv_to_rgb_Q h s v = (v, v, v).
+Proof.
+  intros h s v H. unfold hsv_to_rgb_Q.
+  assert (E : Qeqb s (0 # 1) = true) by (apply Qeqb_true; exact H). rewrite E. reflexivity.
+Qed.
+
+Lemma hsv_to_rgb_Q_top : forall h s v, ~ s == 0 -> h == 1 ->
+  triple_eq (hsv_to_rgb_Q h s v) (v, v * (1 - s), v * (1 - s)).
+Proof.
+  intros h s v Hs Hh. unfold hsv_to_rgb_Q.
+  assert (E : Qeqb s (0 # 1) = false) by (apply Qeqb_false; exact Hs). rewrite E.
+  assert (T : py_trunc_Q (h * (6 # 1)) = 6%Z).
+  { unfold py_trunc_Q.
+    assert (P : Qleb 0 (h * (6 # 1)) = true) by (apply Qleb_true; lra). rewrite P.
+    apply Qfloor_unique; change (inject_Z 6) with 6; lra. }
+  rewrite T. cbv zeta. change (6 mod 6)%Z with 0%Z. simpl.
+  unfold triple_eq, z2q; simpl. change (inject_Z 6) with 6.
+  repeat split; try reflexivity.
+  rewrite Hh. ring.
+Qed.
+
+(* hsv_to_rgb in sector form *)
+Lemma hsv_to_rgb_Q_repr : forall h s v, 0 <= h -> h <= 1 -> 0 < s -> 0 < v ->
+  exists n F, (0 <= n <= 5)%Z /\ 0 <= F /\ F < v * s /\
+    triple_eq (hsv_to_rgb_Q h s v) (sector n v (v - v * s) (v - F) (v - v * s + F)) /\
+    ((h < 1 /\ h * 6 * (v * s) == inject_Z n * (v * s) + F) \/ (h == 1 /\ n = 0%Z /\ F == 0)).
+Proof.
+  intros h s v H0 H1 Hs Hv.
+  assert (Hs0 : ~ s == 0) by lra.
+  assert (HP : 0 < v * s) by (apply Qmult_lt_0_compat; assumption).
+  destruct (Qlt_le_dec h 1) as [Hlt | Hge].
+  - set (n := Qfloor (h * 6)).
+    destruct (Qfloor_bounds (h * 6)) as [F1 F2]. fold n in F1, F2.
+    assert (Hn : (0 <= n <= 5)%Z).
+    { assert (A1 : inject_Z (-1) < inject_Z n) by (change (inject_Z (-1)) with (-1 # 1); lra).
+      assert (A2 : inject_Z n < inject_Z 6) by (change (inject_Z 6) with 6; lra).
+      rewrite <- Zlt_Qlt in A1, A2. lia. }
+    set (f := h * 6 - inject_Z n).
+    assert (f0 : 0 <= f) by (unfold f; lra). assert (f1 : f < 1) by (unfold f; lra).
+    exists n, (v * s * f). split; [exact Hn |]. split; [| split; [| split]].
+    + apply Qmult_le_0_compat; lra.
+    + assert (v * s * f < v * s * 1) by (apply (Qmult_lt_l _ _ (v * s) HP); exact f1). lra.
+    + rewrite (hsv_to_rgb_Q_sector h s v n Hs0 Hn F1 F2). cbv zeta. fold f.
+      assert (C : (n = 0 \/ n = 1 \/ n = 2 \/ n = 3 \/ n = 4 \/ n = 5)%Z) by lia.
+      destruct C as [-> | [-> | [-> | [-> | [-> | ->]]]]]; unfold triple_eq, sector; simpl;
+        repeat split; ring.
+    + left. split; [exact Hlt |]. unfold f. ring.
+  - assert (Hh : h == 1) by lra.
+    exists 0%Z, 0. split; [lia |]. split; [lra |]. split; [lra |]. split.
+    + destruct (hsv_to_rgb_Q_top h s v Hs0 Hh) as [A [B C]].
+      unfold triple_eq, sector in *; simpl in *. repeat split; [exact A | rewrite B; ring | rewrite C; ring].
+    + right. split; [exact Hh | split; reflexivity].
+Qed.
+
+(* the components hsv_to_rgb produces are in [0, 1] *)
+Lemma hsv_to_rgb_Q_range : forall h s v, in01 h -> in01 s -> in01 v ->
+  let '(r, g, b) := hsv_to_rgb_Q h s v in in01 r /\ in01 g /\ in01 b.
+Proof.
+  intros h s v [H0 H1] [S0 S1] [V0 V1].
+  destruct (Qeq_dec s 0) as [Es | Es].
+  - rewrite (hsv_to_rgb_Q_grey h s v Es). unfold in01. repeat split; lra.
+  - destruct (Qeq_dec v 0) as [Ev | Ev].
+    + (* black *)
+      unfold hsv_to_rgb_Q. assert (E : Qeqb s (0 # 1) = false) by (apply Qeqb_false; exact Es). rewrite E.
+      cbv zeta.
+      set (i := (py_trunc_Q (h * (6 # 1)) mod 6)%Z).
+      assert (Hi : (0 <= i < 6)%Z) by (apply Z.mod_pos_bound; lia).
+      assert (C : (i = 0 \/ i = 1 \/ i = 2 \/ i = 3 \/ i = 4 \/ i = 5)%Z) by lia.
+      destruct C as [-> | [-> | [-> | [-> | [-> | ->]]]]]; simpl; unfold in01;
+        repeat split; rewrite ?Ev; lra.
+    + assert (Hs : 0 < s) by (destruct (Qlt_le_dec 0 s); [assumption | exfalso; apply Es; lra]).
+      assert (Hv : 0 < v) by (destruct (Qlt_le_dec 0 v); [assumption | exfalso; apply Ev; lra]).
+      destruct (hsv_to_rgb_Q_repr h s v H0 H1 Hs Hv) as [n [F [Hn [F0 [F1 [T _]]]]]].
+      assert (Pv : v * s <= v).
+      { assert (v * s <= v * 1) by (apply (Qmult_le_l _ _ v Hv); exact S1). lra. }
+      destruct (hsv_to_rgb_Q h s v) as [[r g] b].
+      assert (C : (n = 0 \/ n = 1 \/ n = 2 \/ n = 3 \/ n = 4 \/ n = 5)%Z) by lia.
+      destruct C as [-> | [-> | [-> | [-> | [-> | ->]]]]]; destruct T as [T1 [T2 T3]];
+        unfold sector in *; simpl in *; unfold in01; repeat split; lra.
+Qed.
+
+Lemma triple_eq_trans : forall a b c, triple_eq a b -> triple_eq b c -> triple_eq a c.
+Proof.
+  intros a b c [A1 [A2 A3]] [B1 [B2 B3]]. unfold triple_eq.
+  repeat split; etransitivity; eassumption.
+Qed.
+
+Lemma hsv_to_rgb_Q_black : forall h s v, v == 0 -> triple_eq (hsv_to_rgb_Q h s v) (0, 0, 0).
+Proof.
+  intros h s v Ev. unfold hsv_to_rgb_Q.
+  destruct (Qeqb s (0 # 1)).
+  - unfold triple_eq; simpl. repeat split; exact Ev.
+  - cbv zeta.
+    set (i := (py_trunc_Q (h * (6 # 1)) mod 6)%Z).
+    assert (Hi : (0 <= i < 6)%Z) by (apply Z.mod_pos_bound; lia).
+    assert (C : (i = 0 \/ i = 1 \/ i = 2 \/ i = 3 \/ i = 4 \/ i = 5)%Z) by lia.
+    destruct C as [-> | [-> | [-> | [-> | [-> | ->]]]]]; unfold triple_eq; simpl;
+      repeat split; rewrite ?Ev; ring.
+Qed.
+
+(* rgb_to_hsv of a grey (all components equal) *)
+Lemma rgb_to_hsv_Q_grey : forall r g b x, r == x -> g == x -> b == x ->
+  let '(h', s', v') := rgb_to_hsv_Q r g b in h' == 0 /\ s' == 0 /\ v' == x.
+Proof.
+  intros r g b x Hr Hg Hb.
+  unfold rgb_to_hsv_Q, py_max_Q, py_min_Q.
+  repeat qcase_inner; cbv zeta; repeat qcase_inner; try lra;
+    repeat split; try reflexivity; lra.
+Qed.
+
+(* hsv -> rgb -> hsv: brightness always comes back; saturation unless the colour is black; hue
+   unless it is black or grey (h = 1 comes back as 0, the same angle) *)
+Theorem rgb_hsv_roundtrip : forall h s v r g b, in01 h -> in01 s -> in01 v ->
+  triple_eq (r, g, b) (hsv_to_rgb_Q h s v) ->
+  let '(h', s', v') := rgb_to_hsv_Q r g b in
+  v' == v /\
+  ((s == 0 \/ v == 0) -> h' == 0 /\ s' == 0) /\
+  (0 < s -> 0 < v -> s' == s /\ (h' == h \/ (h == 1 /\ h' == 0))).
+Proof.
+  intros h s v r g b [H0 H1] [S0 S1] [V0 V1] T.
+  destruct (Qeq_dec s 0) as [Es | Es].
+  - rewrite (hsv_to_rgb_Q_grey h s v Es) in T. destruct T as [T1 [T2 T3]]. simpl in *.
+    pose proof (rgb_to_hsv_Q_grey r g b v T1 T2 T3) as G.
+    destruct (rgb_to_hsv_Q r g b) as [[h' s'] v']. destruct G as [G1 [G2 G3]].
+    split; [exact G3 |]. split; [intros _; split; assumption | intros; lra].
+  - destruct (Qeq_dec v 0) as [Ev | Ev].
+    + pose proof (triple_eq_trans _ _ _ T (hsv_to_rgb_Q_black h s v Ev)) as [T1 [T2 T3]]. simpl in *.
+      pose proof (rgb_to_hsv_Q_grey r g b 0 T1 T2 T3) as G.
+      destruct (rgb_to_hsv_Q r g b) as [[h' s'] v']. destruct G as [G1 [G2 G3]].
+      split; [lra |]. split; [intros _; split; assumption | intros; lra].
+    + assert (Hs : 0 < s) by (destruct (Qlt_le_dec 0 s); [assumption | exfalso; apply Es; lra]).
+      assert (Hv : 0 < v) by (destruct (Qlt_le_dec 0 v); [assumption | exfalso; apply Ev; lra]).
+      destruct (hsv_to_rgb_Q_repr h s v H0 H1 Hs Hv) as [n [F [Hn [F0 [F1 [R K]]]]]].
+      assert (HP : 0 < v * s) by (apply Qmult_lt_0_compat; assumption).
+      assert (Pv : v * s <= v).
+      { assert (v * s <= v * 1) by (apply (Qmult_le_l _ _ v Hv); exact S1). lra. }
+      pose proof (rgb_to_hsv_Q_of_sector r g b v (v * s) F n HP Pv F0 F1 Hn (triple_eq_trans _ _ _ T R)) as G.
+      destruct (rgb_to_hsv_Q r g b) as [[h' s'] v']. destruct G as [G1 [G2 G3]].
+      split; [exact G3 |]. split; [intros [A | A]; exfalso; [apply Es | apply Ev]; exact A |].
+      intros _ _. split.
+      * rewrite G2. field. lra.
+      * destruct K as [[K1 K2] | [K1 [K2 K3]]].
+        -- left.
+           assert (A : h' == (inject_Z n * (v * s) + F) / (6 * (v * s))) by (rewrite <- G1; field; lra).
+           assert (B : h == (inject_Z n * (v * s) + F) / (6 * (v * s))) by (rewrite <- K2; field; lra).
+           rewrite A, B. reflexivity.
+        -- right. split; [exact K1 |]. subst n.
+           assert (A : h' == (inject_Z 0 * (v * s) + F) / (6 * (v * s))) by (rewrite <- G1; field; lra).
+           rewrite A, K3. change (inject_Z 0) with 0. field. lra.
+Qed.
